@@ -68,8 +68,25 @@ def kwval(rng, axes, vals, allow_partial=True):
     return {a: rng.choice(vals) for a in sub}
 
 
+def systematic():
+    """A fixed block run at every seed: the spellings of "nothing given" and of falsy-but-given values for
+    the per-call and the Grid-level boundary / fill_value, on one axis, rule fill, width (1, 1).  Zero is a
+    fill value like any other; an empty mapping names no axis; None is "not given"."""
+    out = []
+    for periodic in (False, True):
+        for cb, cf in ((None, None), ("fill", 3), ({"X": "fill"}, {"X": 7}), ("extend", -2), ("fill", 0)):
+            for kb in (None, "fill", {"X": "fill"}, {}, "extend", "periodic"):
+                for kf in (None, 0, 0.0, 5, {"X": 0}, {"X": 0.0}, {}, 0.5):
+                    ctor = {"coords": [["X", [["center", "x_c"], ["left", "x_l"]]]], "N": {"X": 3},
+                            "periodic": periodic, "boundary": cb, "fill": cf}
+                    call = {"dims": [["x_c", 3]], "vals": [10, 14, 20], "bw": [["X", [1, 1]]], "dtype": "float64",
+                            "boundary": kb, "fill": kf}
+                    out.append({"ctor": ctor, "call": call})
+    return out
+
+
 def generate(rng, tier):
-    cases = []
+    cases = systematic()
     n = 400 if tier == "quick" else 6000
     for _ in range(n):
         naxes = rng.choice([1, 2, 2, 2, 3])
